@@ -61,7 +61,9 @@ def hijri_items(tier):
     items = []
     for y in years:
         for m in range(1, 13):
-            L = Hijri(y, m, 1).month_length()
+            # the statement quantifies over days 1..29/30; the reference table's three 31-day months
+            # (1345-05, 1348-11, 1349-11) are outside it (day 31 is refused by the library: observed)
+            L = min(30, Hijri(y, m, 1).month_length())
             for d in (range(1, L + 1) if tier == "thorough" else sorted(x for x in {1, 2, 15, 29, L} if x <= L)):
                 items.append(("hijri", "%04d-%02d-%02d" % (y, m, d), y, m, d, None))
                 items.append(("hijri", "%04d/%02d/%02d 09:05" % (y, m, d), y, m, d, (9, 5)))
